@@ -279,7 +279,7 @@ func passSuite() hlib.Suite {
 
 func suites(tier string) []hlib.Suite {
 	if tier == "quick" {
-		return []hlib.Suite{regularSuite(100, 300, 1), varyingSuite(), randomSuite(4), passSuite(), longRunSuite(40_000_000)}
+		return []hlib.Suite{regularSuite(100, 300, 1), regularSuite(30, 1_000_000, 331), varyingSuite(), randomSuite(4), passSuite(), longRunSuite(40_000_000)}
 	}
 	return []hlib.Suite{regularSuite(1000, 1500, 1), regularSuite(60, 20000, 7), regularSuite(12, 2_000_000, 997), varyingSuite(), randomSuite(5), passSuite(), longRunSuite(400_000_000)}
 }
